@@ -456,7 +456,7 @@ func vspecCovered(x int64, start int64, c int64, size int64) bool {
 //@ modset Log heap("GF.n3"), heap("GF.id3"), heap("GF.n4"), heap("GF.id4"), heap("GF.n5"), heap("GF.id5"), heap("GF.n6"), heap("GF.id6"), heap("GF.n7"), heap("GF.id7"), heap("GF.n8"), heap("GF.id8"), heap("GF.n9"), heap("GF.id9"), heap("GF.n10"), heap("GF.id10"), heap("GF.n11"), heap("GF.id11"), heap("GF.n12"), heap("GF.id12"), heap("GF.n13"), heap("GF.id13"), heap("GF.wfail")
 
 // The topic store (what Subscribe/Unsubscribe/Retain may change).
-//@ modset TopicStore heap("GF.nlookup"), allfields(topics.rnode), allfields(topics.snode), allfields(topics.MemTopics), allmaps(map[string]*topics.rnode), allmaps(map[string]*topics.snode), message.gPacketID, heap("GF.encn"), heap("GF.encarr"), heap("GF.encoff"), heap("GF.encAt"), heap("GF.nretain"), heap("GF.lastretain")
+//@ modset TopicStore heap("GF.nlookup"), heap("GF.nrm"), heap("GF.nar"), allfields(topics.rnode), allfields(topics.snode), allfields(topics.MemTopics), allmaps(map[string]*topics.rnode), allmaps(map[string]*topics.snode), message.gPacketID, heap("GF.encn"), heap("GF.encarr"), heap("GF.encoff"), heap("GF.encAt"), heap("GF.nretain"), heap("GF.lastretain")
 
 //@ extern functype github.com/mdzio/go-mqtt/service.OnPublishFunc
 //@   flag yield
